@@ -721,7 +721,7 @@ pub fn run(tier: Tier, seed: u64) -> ! {
     hooks::NO_INDEX_PATH.store(true, Ordering::SeqCst);
     hooks::NO_RANGE_PATH.store(true, Ordering::SeqCst);
 
-    let n_cases = tier.pick(800u64, 40_000u64);
+    let n_cases = tier.pick(2000u64, 40_000u64);
     let budget = tier.pick(250usize, 400usize);
     let configs = all_configs();
     let mut reduced_cache: BTreeMap<String, String> = BTreeMap::new();
